@@ -175,6 +175,26 @@ def matrix_digits(ctx, rep):
                     why = "element written with %s" % show(val, maxdepth=3)
             else:
                 why = "%d stores to the element per iteration" % len(writes)
+    if not loops:
+        # buf.fill_with(|| die.sample(&mut rng)): the closure is called once per element, in order
+        fw = [i for i in se.term_info.values() if i.get("k") == "call" and i["name"] == "core::slice::<impl [T]>::fill_with"]
+        if len(fw) == 1 and fw[0]["locargs"][0] == ("ref", ("deref", ("param", 1)), True):
+            cl = fw[0]["locargs"][1]
+            if cl[0] == "agg" and cl[1] == "closure" and len(cl[4]) == 2 and all(c[0] == "ref" and c[1][0] == "local" for c in cl[4]):
+                vals = [strip(util.value_before_terminator(se, fw[0]["site"][1], c[1])) for c in cl[4]]
+                die_i = [k for k, v in enumerate(vals) if util.is_call(v, suffix="::from") and util.is_call(v[2][0], "std::ops::RangeInclusive::<Idx>::new") and tuple(x[:2] for x in v[2][0][2]) == (("int", 0), ("int", 9))]
+                rng_i = [k for k, v in enumerate(vals) if util.is_call(v, "rand::thread_rng")]
+                cse = ctx.flat.run(cl[2])
+                if len(die_i) == 1 and len(rng_i) == 1 and cl[4][rng_i[0]][2] and cse is not None and not cfg.back_edges(cse.body):
+                    calls = [i for i in cse.term_info.values() if i.get("k") == "call"]
+                    r = strip(cse.ret)
+                    env1 = ("deref", ("param", 1)) if cse.body.local_ty(1).k == "ref" else ("param", 1)
+                    if len(calls) == 1 and util.is_call(r, "<rand::distributions::Uniform<X> as rand::distributions::Distribution<X>>::sample") and r == strip(calls[0]["term"]):
+                        la = calls[0]["locargs"]
+                        die_ok = strip(la[0]) == strip(("field", env1, die_i[0]))
+                        rng_ok = la[1][0] == "ref" and strip(la[1][1]) == strip(("field", env1, rng_i[0]))
+                        good = die_ok and rng_ok
+                        why = "every element := Uniform(0..=9).sample(thread_rng) (fill_with)" if good else "fill_with closure does not sample the 0..=9 die from the thread rng"
     rep.check(good, "fresh-source", FN, "card digits", why, "card digits are not each drawn from Uniform(0..=9) over thread_rng(): " + why, body.loc())
     # MatrixCard::new fills the whole data vector
     nse = ctx.wrap.run("matrix_card::MatrixCard::new")
